@@ -178,7 +178,8 @@ def connect_scn(sx, **params):
 # ----------------------------------------------------------------------------
 CONTENDED_OPS = ["sense", "listen", "exchange-cmd", "exchange-rsp",
                  "max_send_data_size", "max_recv_data_size", "close",
-                 "__exit__", "open", "open-closed", "connect-rdwr",
+                 "__exit__", "__exit__:KeyboardInterrupt", "__exit__:IOError", "__exit__:ValueError",
+                 "open", "open-closed", "connect-rdwr",
                  "connect-llcp",
                  "connect-card"]
 
@@ -229,6 +230,13 @@ def contended_scn(sx, op):
         st, v = C.call(clf.close)
     elif op == "__exit__":
         st, v = C.call(clf.__exit__, None, None, None)
+    elif op.startswith("__exit__:"):
+        # the with-block is left through an exception (Ctrl-C in the main
+        # thread while a worker thread is inside the driver)
+        exc = dict(KeyboardInterrupt=KeyboardInterrupt, IOError=IOError,
+                   ValueError=ValueError)[op.split(":")[1]]
+        st, v = C.call(clf.__exit__, exc, exc(), None)
+        sx.reach("contended:with-block-left-through-exception")
     elif op in ("open", "open-closed"):
         # open: second open() of a frontend that is open (closes the old
         # driver, then searches the new one); open-closed: frontend closed
@@ -533,7 +541,7 @@ BOUNDS = {
              "thread is ordered immediately before the first lock acquisition "
              "of sense, listen, exchange (both directions), the size "
              "properties and close: no driver call on the closed driver, "
-             "IOError(ENODEV) or a normal return, no other exception",
+             "IOError(ENODEV) or a normal return, no other exception; __exit__ with KeyboardInterrupt/IOError/ValueError as the exception that leaves the with-block",
     "thorough": "as quick with the thorough bounds of harness/c18_connect.py",
 }
 OUTSIDE = [
